@@ -61,6 +61,7 @@ _RULES = {
     "STRIP-REBUILD": rules_more.rule_strip_rebuild,
     "DIAG-FLAG": rules_more.rule_diag_flag,
     "IDENT-RANGE": rules_more.rule_ident_range,
+    "RECURSION-BOUND": rules_struct.rule_recursion_bound,
 }
 
 _cache = {}
